@@ -180,7 +180,17 @@ func init() {
 		},
 		"runtime.Gosched":    func(t *Thread, a []Value) Value { t.yield("gosched"); return nil },
 		"path/filepath.Base": func(t *Thread, a []Value) Value { return a[0] },
-		"strings.Join":       func(t *Thread, a []Value) Value { return t.run.e.strConst("<join>") },
+		"strings.Join": func(t *Thread, a []Value) Value {
+			var out []*Term
+			sep := a[1].(Str)
+			for i, el := range a[0].(Slice).a {
+				if i > 0 {
+					out = append(out, sep.b...)
+				}
+				out = append(out, el.(Str).b...)
+			}
+			return Str{out}
+		},
 
 		// ---- reflect subset
 		"reflect.TypeOf":                reflTypeOf,
@@ -1048,9 +1058,21 @@ var verifAPI = map[string]intrinsic{
 	},
 	"verifReach": func(t *Thread, a []Value) Value { t.run.reach[argStr(a[0])] = true; return nil },
 	"verifYield": func(t *Thread, a []Value) Value {
+		// a scheduling point placed by the harness (inside its transport): any enabled thread may run
+		// next; a free choice, not charged to the delay bound
 		saved := t.atomicDepth
 		t.atomicDepth = 0
-		t.yield("verifYield")
+		r := t.run
+		r.schedPoints++
+		others := r.enabledAfter(t)
+		others = others[:r.nNormal]
+		if len(others) > 0 {
+			k := r.decide('Y', 1+len(others), "verifYield", 0)
+			if k > 0 {
+				t.state = tRunnable
+				t.handoff(others[k-1])
+			}
+		}
 		t.atomicDepth = saved
 		return nil
 	},
